@@ -70,7 +70,7 @@ func drawExifCase(r *core.Rng, slotty bool, boundary bool) *exifCase {
 		ec.layout.FirstOff = 8 + r.Range(1, 200)
 	}
 	ec.layout.SlotFill = r.Chance(1, 4)
-	ec.desc = fmt.Sprintf("fields=%d foreign=%d/%d/%d class=%s order=%d pad=%d first=%d", len(rec.Exp.Names), nf0, nfx, nfg, class, ec.layout.Order, ec.layout.MaxPad, ec.layout.FirstOff)
+	ec.desc = fmt.Sprintf("fields=%d foreign=%d/%d/%d class=%s order=%d pad=%d first=%d %s", len(rec.Exp.Names), nf0, nfx, nfg, class, ec.layout.Order, ec.layout.MaxPad, ec.layout.FirstOff, rec.Note)
 	return ec
 }
 
